@@ -129,7 +129,7 @@ def index_facts(e, facts, seen=None):
                 if nx[0] == "call" and nx[1].endswith("Iterator::next"):
                     src, stages = U.chain(nx[2][0])
                     s0 = S.strip_refs(src)
-                    if s0[0] == "agg" and s0[2].endswith("Range::Range") and all(st[0] == "into_iter" for st in stages):
+                    if s0[0] == "agg" and s0[2].endswith("Range::Range") and all(st[0] in ("into_iter", "rev", "clone") for st in stages):
                         a = norm_atom(x)
                         if a not in seen:
                             seen.add(a)
@@ -139,7 +139,7 @@ def index_facts(e, facts, seen=None):
     return facts
 
 
-def guard_facts(ctx, body, site_bi, facts):
+def guard_facts(ctx, body, site_bi, facts, before_site_stmts=False):
     """facts from comparisons whose outcome is fixed on every path to the site block, provided the compared
     variables are not reassigned between the guard and the site"""
     sy = ctx.sym(body)
@@ -168,8 +168,19 @@ def guard_facts(ctx, body, site_bi, facts):
             for kind, dbi, dsi, node in defs.get(l, []):
                 if dbi in region and dbi != site_bi:
                     stable = False
-                if dbi == site_bi and kind == "assign":
+                if dbi == site_bi and kind == "assign" and not before_site_stmts:
                     stable = False
+        # memory-backed atoms (fields reached through a reference) must not be written in the region either
+        if stable:
+            mem_atoms = [k for k in list(a.co) + list(b.co) if isinstance(k, tuple) and k and k[0] == "field"]
+            if mem_atoms:
+                for rb in region:
+                    if rb == site_bi:
+                        continue
+                    for st in body.blocks[rb]["stmts"]:
+                        if st["k"] == "assign" and st["place"]["p"]:
+                            if norm_atom(sy.place(st["place"])) in mem_atoms:
+                                stable = False
         if not stable:
             continue
         why = "guard at bb%d: %s" % (gbi, S.show(e, body)[:80])
@@ -197,4 +208,106 @@ def calls_len_facts(e, facts):
             b = ("len", norm_atom(x[2][0]))
             facts.append(Fact(Lin({a: 1, b: -1}), "len() call"))
             facts.append(Fact(Lin({a: -1, b: 1}), "len() call"))
+    return facts
+
+
+# ------------------------------------------------------------------ extra fact sources used by the C01 subtraction rule
+
+def emptiness_guard_facts(ctx, body, site_bi, facts):
+    """`x.is_empty()` / `x.len() == 0` guards: on the non-empty side len(x) >= 1"""
+    sy = ctx.sym(body)
+    cfg = ctx.cfg(body)
+    for gbi, t in body.iter_terms():
+        bt = U.bool_switch_targets(t)
+        if not bt or not cfg.dominates(gbi, site_bi) or gbi == site_bi:
+            continue
+        e = sy.operand(t["discr"])
+        x = None
+        empty_when_true = None
+        if e[0] == "call" and e[1].endswith("is_empty") and e[2]:
+            x, empty_when_true = e[2][0], True
+        elif e[0] == "binop" and e[1] in ("Eq", "Ne") and U.is_const(e[3]) and S.const_value(e[3]) == 0 and \
+                e[2][0] == "call" and e[2][1].endswith("::len"):
+            x, empty_when_true = e[2][2][0], e[1] == "Eq"
+        if x is None:
+            continue
+        to_true = U.branch_reaches(cfg, gbi, bt[1], {site_bi})
+        to_false = U.branch_reaches(cfg, gbi, bt[0], {site_bi})
+        if to_true == to_false:
+            continue
+        nonempty = (to_false and empty_when_true) or (to_true and not empty_when_true)
+        if nonempty:
+            facts.append(Fact(Lin({("len", norm_atom(x)): 1}, -1), "guard: %s is not empty" % S.show(x, body)[:40]))
+    return facts
+
+
+def structural_len_facts(atoms, facts):
+    """std lemmas on atoms that occur:  len(x[a..b]) = b - a, len(x[..b]) = b (checked indexing returned);
+    count(adaptors(iter(x))) <= len(x) and <= n for take(n);  capacity(v) >= len(v)"""
+    for a in list(atoms):
+        if not isinstance(a, tuple) or not a:
+            continue
+        if a[0] == "len":
+            x = a[1]
+            if isinstance(x, tuple) and x and x[0] == "call" and x[1].endswith("Index::index") and len(x[2]) == 2:
+                rng = x[2][1]
+                if isinstance(rng, tuple) and rng and rng[0] == "agg":
+                    d = dict(zip(rng[4], rng[3])) if len(rng) > 4 else {}
+                    if rng[2].endswith("RangeTo::RangeTo") and "end" in d:
+                        f = lin(d["end"]) - Lin({a: 1})
+                        facts.append(Fact(f, "len(x[..b]) = b"))
+                        facts.append(Fact(Lin() - f, "len(x[..b]) = b"))
+                    elif rng[2].endswith("Range::Range") and "start" in d and "end" in d:
+                        f = lin(d["end"]) - lin(d["start"]) - Lin({a: 1})
+                        facts.append(Fact(f, "len(x[a..b]) = b - a"))
+                        facts.append(Fact(Lin() - f, "len(x[a..b]) = b - a"))
+        if a[0] == "call" and a[1].endswith("Iterator::count") and a[2]:
+            src, stages = U.chain(a[2][0])
+            names = [s_[0] for s_ in stages]
+            if names and names[0] in ("iter", "into_iter") and all(n in ("iter", "into_iter", "take_while", "take", "rev", "filter", "skip_while", "skip", "map") for n in names):
+                facts.append(Fact(Lin({("len", norm_atom(src)): 1, a: -1}), "count(..iter(x)..) <= len(x)"))
+                for s_ in stages:
+                    if s_[0] == "take" and s_[1]:
+                        facts.append(Fact(lin(s_[1][0]) - Lin({a: 1}), "count(..take(n)..) <= n"))
+        if a[0] == "call" and a[1].endswith("Vec::capacity") and a[2]:
+            facts.append(Fact(Lin({a: 1, ("len", norm_atom(a[2][0])): -1}), "capacity >= len"))
+    return facts
+
+
+def counter_facts(ctx, body, facts):
+    """induction for counters: a variable whose definitions are a constant c0 and `v + 1` at blocks guarded by `v < B`
+    (B not assigned in the body's loops) satisfies v <= B everywhere, provided c0 <= B is itself provable (c0 = 0)"""
+    sy = ctx.sym(body)
+    cfg = ctx.cfg(body)
+    for l, ds in body.defs().items():
+        if len(ds) < 2 or body.local_ty(l) != "usize":
+            continue
+        ok = True
+        bound = None
+        for kind, dbi, dsi, node in ds:
+            if kind != "assign":
+                ok = False
+                break
+            v = lin(sy.rvalue(node["rv"]))
+            if not v.co and v.c == 0:
+                continue
+            if v.co == {("var", l): 1} and v.c == 1:
+                # find a dominating stable guard  var < B
+                gf = []
+                guard_facts(ctx, body, dbi, gf, before_site_stmts=True)
+                found = None
+                for f in gf:
+                    if f.form.co.get(("var", l)) == -1 and f.form.c == -1:
+                        rest = {k: c for k, c in f.form.co.items() if k != ("var", l)}
+                        if len(rest) == 1 and list(rest.values())[0] == 1:
+                            found = list(rest)[0]
+                if found is None or (bound is not None and bound != found):
+                    ok = False
+                    break
+                bound = found
+            else:
+                ok = False
+                break
+        if ok and bound is not None:
+            facts.append(Fact(Lin({bound: 1, ("var", l): -1}), "counter induction: starts at 0, +1 only while < bound"))
     return facts
